@@ -432,3 +432,14 @@ _c08_base2 = contracts
 
 def contracts():
     return _c08_base2() + [update_refs_contract(False), update_refs_contract(True)]
+
+
+# resolve_value on a container of any length resolves every item (nested_refs containers; verified for C09)
+_c08_base3 = contracts
+
+
+def contracts():
+    from contracts import c09 as _c09
+    c = _c09.resolve_value_container_contract("list")
+    c.prop = "C08"
+    return _c08_base3() + [c]
